@@ -183,6 +183,8 @@ pub fn derive_cfg(job: &Job) -> SimCfg {
         word_domain_wide: r.chance(1, 3),
         end_with_shutdown: false,
         paths_at_start: false,
+        position_probe: false,
+        unicode_heavy: false,
     };
     gen_cfg.end_with_shutdown = {
         let f = job.params.get("focus").and_then(|v| v.as_str()).unwrap_or(mode);
@@ -207,6 +209,12 @@ pub fn derive_cfg(job: &Job) -> SimCfg {
             gen_cfg.weights.add_file = 10;
             gen_cfg.weights.restart = 3;
             gen_cfg.weights.code_action = 8;
+        }
+        "position" => {
+            gen_cfg.position_probe = true;
+            gen_cfg.unicode_heavy = true;
+            gen_cfg.messages = r.range(4, 10);
+            gen_cfg.weights = Weights { open: 6, change: 20, save: 1, close: 2, delete: 0, config: 2, code_action: 0, add_user: 0, add_file: 0, ignore: 0, record: 0, restart: 0, crash: 0 };
         }
         "paths" => {
             gen_cfg.use_paths = true;
@@ -382,6 +390,9 @@ impl<'j> Sim<'j> {
             }
         }
         let quiet = evs.is_empty();
+        if !quiet && self.peeked.is_none() && self.generator.as_ref().map(|g| g.needs_quiet()).unwrap_or(false) {
+            return evs;
+        }
         let seq = self.cfg.policy == Policy::Sequential;
         // a crash never waits for the server to be idle, under any policy
         let wait = self.peek_entry().map(|e| !matches!(e.op, Op::Kill { .. }) && (e.wait_quiet || seq));
@@ -887,6 +898,7 @@ pub fn run(job: &Job) -> RunResult {
         let _ = std::hint::black_box(foldhash::fast::RandomState::default());
     }
     seam::seed_random(crate::rng::mix64(job.seed ^ cfg.universe.wrapping_mul(0x9E37_79B9)));
+    crate::corpus::UNICODE_HEAVY.with(|u| u.set(cfg.gen_cfg.unicode_heavy));
     let mut sim = Sim::new(job, cfg);
     if let Some(t) = &replay {
         if let Ok(s) = serde_json::from_value::<Vec<ScriptEntry>>(t["script"].clone()) {
